@@ -271,6 +271,7 @@ impl Check for C15 {
             Part { name: "structured", kind: PartKind::Random { cases: tier.pick(600_000, 6_000_000), main: 120, ops: 0, oplen: 0, sched: 0 } },
             Part { name: "malformed", kind: PartKind::Random { cases: tier.pick(200_000, 2_000_000), main: 12, ops: 0, oplen: 0, sched: 0 } },
             Part { name: "enum", kind: PartKind::Enum { units: 125 } },
+            Part { name: "bb-depfile", kind: PartKind::Random { cases: tier.pick(48, 600), main: 8, ops: 0, oplen: 0, sched: 0 } },
         ]
     }
     fn run_unit(&mut self, _part: &str, u: u64, env: &mut Env) -> CaseOut {
@@ -278,6 +279,7 @@ impl Check for C15 {
     }
     fn run_random(&mut self, part: &str, case: &Case, env: &mut Env) -> CaseOut {
         match part {
+            "bb-depfile" => crate::bb::deps::run_bad_depfile_case(case, env),
             "malformed" => self.malformed(case, env),
             _ => self.structured(case, env),
         }
